@@ -28,6 +28,9 @@ CLAIMED = {
  "C11": ("SSA value-origin analysis (the context handed to every nested Render in a template-loading function is a Clone()/NewRenderContext() result on every phi edge), edge-refined must-dataflow on the only / ignoreMissing flags, errors.Is tied to the swallowed error value, freshness lint on every store to a RenderContext scope-map field",
          "Decides non-interference on every path: the included/extended/imported template never renders in the caller's own context, `only` never coexists with read-through access, `ignore missing` swallows only ErrTemplateNotFound of the failed load, and no two contexts (or a context and the caller) ever share a scope map. Option parsing and computed names are not decided.",
          COMMON_NOTE, "§2 C11"),
+ "C17": ("error-propagation analysis on SSA: fixed point of 'propagating' functions over the call graph; per call site, value flow of the error result to a Return through phis, named results, %w / NewError / Err-field / errors.Join wrapping; path search from the non-nil edge of every nil test for a nil-error return; text-only (cause-loss) detection; not-found edges of name lookups; top-level Unwrap / empty-output returns",
+         "Decides, for every position at which a filter, function, test, loader or nested template can fail, that the failure reaches the top-level return as an error that still wraps its cause, and that a failed name lookup is an error. Errors turned into values inside user callbacks and the documented tolerances are outside.",
+         "One frozen exception (timestamp queries in Engine.Load), with its reason. Loader retry loops are recognised: a later loader's success may supersede an earlier loader's failure. " + COMMON_NOTE, "§2 C17"),
  "C20": ("typed-AST lint (complete key literals, StructField.Index never indexed) + SSA backward-slice purity check of every store into a cache entry's lookup fields + classification of every write to the cache map (delete / statistics-only read-modify-write under the same key / pure insert) + identity of the reflect.Value that keys and serves the access",
          "Decides that a cache hit returns what a miss would compute, for every history and any number of distinct (type, name) pairs: the cache and its eviction are unobservable. reflect's FieldByName/MethodByName semantics are trusted.",
          COMMON_NOTE, "§2 C20"),
